@@ -130,3 +130,48 @@ def bv_has(flagval, member):
     if isinstance(v, int):
         return (v & m) != 0
     return (v & z3.BitVecVal(m, v.size())) != 0
+
+
+def bounded_via_script(prop):
+    """hook for contract files: run the labelled BOUNDED stand-in
+    /verif/bounded/<prop>.py under /venv/bin/python (it attaches the contracts as
+    run-time checks to the real public API over a stated finite input space)"""
+    def bounded(tier, seed):
+        import json as _json
+        import os
+        import subprocess
+        here = os.path.dirname(os.path.dirname(os.path.abspath(__file__)))
+        env = dict(os.environ)
+        src = os.environ.get("VERIF_SRC")
+        if src:
+            env["PYTHONPATH"] = os.path.dirname(src) + os.pathsep + env.get("PYTHONPATH", "")
+        p = subprocess.run(["/venv/bin/python", os.path.join(here, "bounded", f"{prop}.py"),
+                            "--tier", tier, "--seed", str(seed)], capture_output=True, text=True,
+                           timeout=3000, env=env, cwd=here)
+        line = [l for l in p.stdout.strip().split("\n") if l.startswith("{")]
+        if not line:
+            return {"status": "crash", "error": (p.stdout + p.stderr)[-800:]}
+        d = _json.loads(line[-1])
+        out_root = os.environ.get("VERIF_OUT", here)
+        os.makedirs(os.path.join(out_root, "replays"), exist_ok=True)
+        known = [f for f in _json.load(open(os.path.join(here, "known_findings.json"))).get("findings", [])
+                 if f.get("property") == prop and f.get("status", "open") == "open" and f.get("bounded_key")]
+        viols, known_hit = [], {}
+        for i, f in enumerate(d.get("failures", [])):
+            kf = [k for k in known if k["bounded_key"] == f.get("key")]
+            if kf:
+                known_hit.setdefault(kf[0]["id"], kf[0]["what"])
+                continue
+            if len(viols) >= 6:
+                continue
+            path = os.path.join(out_root, "replays", f"{prop}_bounded_{i}.json")
+            _json.dump({"property": prop, "obligation": "bounded::" + str(f.get("contract")), "input": f.get("input"),
+                        "what": f.get("what"), "replay_cmd": f"/venv/bin/python bounded/{prop}.py --replay {path}"},
+                       open(path, "w"), indent=1, default=str)
+            viols.append({"replay": path, "what": f"{f.get('contract')}: {f.get('what')} on {str(f.get('input'))[:300]}"})
+        return {"bounded_evaluations": d.get("evaluations", 0), "bounded_distinct_nontrivial": d.get("distinct_nontrivial", 0),
+                "bounded_failures": len(d.get("failures", [])),
+                "bounded_rule": "BOUNDED stand-in, not a proof: " + d.get("rule", ""),
+                "bounded_samples": d.get("samples", [])[:4], "bounded_contracts": d.get("contracts", []),
+                "violations": viols, "known": sorted(known_hit.values())}
+    return bounded
